@@ -617,6 +617,49 @@ def g_topcarry(rng, n, fmts=('f64',), step=135):
     return out
 
 
+def g_rescale(rng, n):
+    """groups of inputs that share one digit string and are hard (within ~1e-18 of a rounding
+    boundary, so that both extended-precision stages decline) at TWO decimal scales 10^3 apart:
+    boundaries p * 2^s and p' * 2^(s+10) with 1024 p' - 1000 p = +-8 (p = +-43 + 128 t,
+    p' = +-42 + 125 t, t odd), digits = the exact decimal of the point half way between p * 2^s and
+    p' * 2^(s+10) / 1000.  Each group is [A, B, C]: A = the digits at the lower scale, B = the same
+    digit bytes and the same exponent argument with the decimal point moved three places, C = A's
+    split with the exponent argument + 3.  Used for call-history tests (a result must not depend on
+    which input was parsed before)."""
+    groups = []
+    tries = 0
+    while len(groups) < n and tries < 200 * n:
+        tries += 1
+        sg = rng.choice([1, -1])
+        t = rng.range((1 << 53) // 125 + 2, (1 << 54) // 128 - 2) | 1
+        p, p2 = sg * 43 + 128 * t, sg * 42 + 125 * t
+        if not ((1 << 53) <= p < (1 << 54) and (1 << 53) <= p2 < (1 << 54)):
+            continue
+        if 1024 * p2 - 1000 * p != sg * 8 or p % 2 == 0 or p2 % 2 == 0:
+            continue
+        s = rng.range(-70, -3)
+        k5 = 5 ** (-s)
+        N = (1000 * p + sg * 4) * k5                   # value = N * 10^(s-3)
+        lo_b, hi_b = sorted([1000 * p * k5, (1000 * p + sg * 8) * k5])
+        ds = str(N)
+        L = len(ds)
+        if L < 23:
+            continue
+        w = int(ds[:19])
+        unit = 10 ** (L - 19)
+        if not (w * unit <= lo_b and hi_b < (w + 1) * unit):
+            continue
+        e10 = s - 3
+        z = len(ds) - len(ds.rstrip('0'))
+        ds, e10 = ds.rstrip('0'), e10 + z
+        # A: d.ddd...  value ds * 10^e10
+        A = PF('f64', ds[:1], ds[1:], e10 + len(ds) - 1, 'G-RESCALE/A')
+        B = PF('f64', ds[:4], ds[4:], e10 + len(ds) - 1, 'G-RESCALE/B')      # same bytes, same exponent, point moved
+        C = PF('f64', ds[:1], ds[1:], e10 + len(ds) - 1 + 3, 'G-RESCALE/C')  # same bytes and split, exponent + 3
+        groups.append([A, B, C])
+    return groups
+
+
 def g_limbmid(rng, fmts=('f64', 'f32'), groups=False):
     """integer rounding boundaries whose bit length is at (or one off) a multiple of the limb size:
     M = (2*sig+1) * 2^(L-p-1) with L in {64k-1, 64k, 64k+1, 32(2k+1)}, sig even / odd / all-ones /
